@@ -145,6 +145,8 @@ struct Tun {
     status: u16,
     /// UDP: socket address each flow last spoke from
     peer: Vec<Option<SocketAddr>>,
+    /// the origin's side was taken once (and possibly closed since): never wait for another connection
+    origin_taken: bool,
 }
 
 pub struct Series {
@@ -303,9 +305,10 @@ impl<'a> Hist<'a> {
             }
             // a tunnel waiting for its origin connection
             for i in 0..self.tuns.len() {
-                if self.tuns[i].kind == 'T' && self.tuns[i].origin.is_none() && self.tuns[i].status == 0 {
+                if self.tuns[i].kind == 'T' && self.tuns[i].origin.is_none() && !self.tuns[i].origin_taken {
                     if let Some(s) = self.accept_origin() {
                         self.tuns[i].origin = Some(s);
+                        self.tuns[i].origin_taken = true;
                     }
                 }
             }
@@ -365,7 +368,7 @@ impl<'a> Hist<'a> {
                     }
                     Sess::Gone => TunIo::H1,
                 };
-                self.tuns.push(Tun { sess: *s, kind: *k, io, origin: None, origin_got: 0, status: 0, peer: vec![None; nflows] });
+                self.tuns.push(Tun { sess: *s, kind: *k, io, origin: None, origin_got: 0, status: 0, peer: vec![None; nflows], origin_taken: false });
             }
             Op::Up(t, n) => {
                 let data = vec![0x55u8; *n];
@@ -596,7 +599,8 @@ fn gen_hist(rng: &mut Rng, nflows: usize, n: usize, hanging: bool) -> Vec<Op> {
             match tuns[t].1 {
                 GT::Tcp => ops.push(if rng.chance(1, 2) { Op::Up(t, *rng.pick(&lens)) } else { Op::Down(t, *rng.pick(&lens)) }),
                 GT::Udp => {
-                    let f = rng.below(nflows as u64) as usize;
+                    // few flows per history, so that flows are reused, fail twice, expire and come back
+                    let f = if rng.chance(3, 4) { [0usize, 3, 2, 8][rng.below(4) as usize] % nflows } else { rng.below(nflows as u64) as usize };
                     let l = *rng.pick(&[3usize, 10, 100, 1200]);
                     ops.push(if rng.chance(3, 5) { Op::UdpUp(t, f, l) } else { Op::UdpDown(t, f, l) })
                 }
@@ -746,6 +750,9 @@ pub fn run(ctx: &mut Ctx) {
     hist.push(vec![so(2), Op::TunOpen(0, 'U'), Op::UdpUp(0, 0, 10), Op::UdpDown(0, 0, 20), Op::UdpUp(0, 1, 5), Op::Adv(UDP_IDLE_MS + UDP_IDLE_MS / 4 + 1), Op::UdpUp(0, 0, 10), Op::SessClose(0)]);
     hist.push(vec![so(1), Op::TunOpen(0, 'U'), Op::UdpUp(0, 2, 10), Op::UdpDown(0, 2, 20), Op::UdpUp(0, 3, 5), Op::UdpUp(0, 4, 5), Op::UdpUp(0, 0, 5), Op::TunClose(0, 'r')]);
     hist.push(vec![so(2), so(2), so(1), Op::SessClose(1), Op::SessClose(0), Op::SessClose(2)]);
+    // a UDP flow whose send fails (dead port, second datagram) next to healthy ones, then reuse and expiry
+    hist.push(vec![so(2), Op::TunOpen(0, 'U'), Op::UdpUp(0, 0, 10), Op::UdpUp(0, 3, 5), Op::UdpUp(0, 3, 5), Op::UdpUp(0, 3, 5), Op::UdpUp(0, 1, 5), Op::UdpDown(0, 0, 7), Op::Adv(UDP_IDLE_MS + UDP_IDLE_MS / 4 + 1), Op::SessClose(0)]);
+    hist.push(vec![so(1), Op::TunOpen(0, 'U'), Op::UdpUp(0, 8, 10), Op::UdpUp(0, 8, 10), Op::UdpUp(0, 4, 10), Op::UdpUp(0, 4, 10), Op::UdpUp(0, 8, 10), Op::TunClose(0, 'r')]);
     let n_random = if ctx.thorough() { 1200 } else { 120 };
     for _ in 0..n_random {
         let n = ctx.rng.range(4, 16) as usize;
